@@ -72,7 +72,11 @@ def shards(tier: str, seed: int) -> List[Dict[str, Any]]:
 def gen_value(rng: random.Random, rev: int, n: int, kind: Optional[str] = None) -> Any:
     """A value embedding the unique marker (rev, objid)."""
     mark = b"r%d-o%d" % (rev, n)
-    k = kind or rng.choice(["dict", "dict", "array", "string", "stream", "int", "name", "nested", "ref", "hexstr", "dict", "falsy"])
+    k = kind or rng.choice(["dict", "dict", "array", "string", "stream", "int", "name", "nested", "ref", "hexstr", "dict", "falsy"] + (["null"] if rev else []))
+    if k == "null":
+        # an update may redefine an object as the null object (e.g. to drop a stream): the newest definition is null,
+        # the older value must not come back
+        return None
     if k == "falsy":
         # values that are false in Python (they cannot carry the marker): an object whose newest value is one of them is
         # still an in-use object with that value
